@@ -1,7 +1,7 @@
 """C08 - primitive steps encode exactly their defining optimality conditions.
 
 (symbolic)  every step x option x step size / accuracy of {0, 1/2, 1, 2} x starting point {leaf, combination, point returned
-            by a preceding step} x function {differentiable leaf, non-differentiable leaf, sum of both, sum with one term
+            by a preceding step, the point the preceding step started from} x function {differentiable leaf, non-differentiable leaf, sum of both, sum with one term
             already evaluated at the starting point} after 0 or 1 preceding steps is executed on the real library; the
             returned objects, the EXACT set of samples and side constraints added to every function (diff of all lists
             before / after), the freshness of the leaves and the absence of any other effect are compared with a reference
@@ -23,7 +23,7 @@ SIZES = [0, 0.5, 1, 2]
 FUNCS = ["fd", "fn", "sum", "sum_eval"]
 FUNCS_THOROUGH = FUNCS + ["weighted", "nested", "zero"]
 SIZES_THOROUGH = [0, 0.5, 1, 2, 3.5, 0.1]
-STARTS = ["leaf", "combo", "returned"]
+STARTS = ["leaf", "combo", "returned", "same"]
 PRE = ["none", "prox", "grad"]
 PRE_THOROUGH = PRE + ["prox+grad", "grad+prox", "els", "iprox1"]
 
@@ -79,6 +79,11 @@ class World(object):
             self.x0 = self.a
         elif start == "combo":
             self.x0 = x0 - 2 * self.b if pre != "none" else self.a - 2 * self.b
+        elif start == "same":
+            # the very point the preceding step(s) started from (a second, different step from one point)
+            if pre == "none":
+                self.ok = False
+            self.x0 = self.a
         else:
             if pre == "none":
                 self.ok = False
